@@ -2,3 +2,258 @@
 From Coq Require Import QArith Qreduction.
 From Verif Require Import Base.Prelude Base.StrUtil Model.Resources Model.ResourcesSpec.
 Local Close Scope Q_scope.
+
+(* ---------------------------------------------------------------- strings *)
+Lemma str_eqb_refl x : str_eqb x x = true.
+Proof. induction x as [|c x IH]; cbn; [reflexivity|]. now rewrite Ascii.eqb_refl, IH. Qed.
+
+Lemma str_eqb_eq x y : str_eqb x y = true <-> x = y.
+Proof.
+  split; [|intros ->; apply str_eqb_refl].
+  revert y; induction x as [|c x IH]; intros [|d y] H; cbn in H; try discriminate; [reflexivity|].
+  apply andb_true_iff in H as [H1 H2]. apply Ascii.eqb_eq in H1. apply IH in H2. now subst.
+Qed.
+
+Lemma str_eqb_neq x y : str_eqb x y = false <-> x <> y.
+Proof.
+  split.
+  - intros H E. apply str_eqb_eq in E. congruence.
+  - intros H. destruct (str_eqb x y) eqn:E; [|reflexivity]. apply str_eqb_eq in E. contradiction.
+Qed.
+
+Lemma span_spec p x a b : span p x = (a, b) -> x = a ++ b /\ Forall (fun c => p c = true) a
+  /\ (b = [] \/ exists c b', b = c :: b' /\ p c = false).
+Proof.
+  revert a b; induction x as [|c x IH]; intros a b H; cbn in H.
+  - inversion H; subst. repeat split; auto.
+  - destruct (p c) eqn:Hc.
+    + destruct (span p x) as [a' b'] eqn:E. inversion H; subst.
+      destruct (IH a' b eq_refl) as (-> & Hf & Hb). repeat split; auto.
+    + inversion H; subst. repeat split; auto. right. eauto.
+Qed.
+
+Lemma span_app p a b : Forall (fun c => p c = true) a -> (b = [] \/ exists c b', b = c :: b' /\ p c = false) ->
+  span p (a ++ b) = (a, b).
+Proof.
+  induction a as [|c a IH]; intros Ha Hb; cbn.
+  - destruct Hb as [->|(c & b' & -> & Hc)]; cbn; [reflexivity|]. now rewrite Hc.
+  - inversion Ha; subst. rewrite H1. now rewrite IH.
+Qed.
+
+Lemma forallb_Forall {A} (p : A -> bool) l : forallb p l = true <-> Forall (fun c => p c = true) l.
+Proof.
+  rewrite forallb_forall, Forall_forall. reflexivity.
+Qed.
+
+Lemma digits_b_iff x : digits_b x = true <-> all_digits x.
+Proof.
+  unfold digits_b, all_digits. destruct x as [|c x].
+  - split; [discriminate|]. intros [H _]. contradiction.
+  - rewrite forallb_Forall. split; [intros H; split; [discriminate|exact H]|intros [_ H]; exact H].
+Qed.
+
+Lemma dd_b_iff x : dd_b x = true <-> dd x.
+Proof.
+  unfold dd_b, dd. split.
+  - destruct x as [|a [|b [|c x]]]; try discriminate. intros H. apply andb_true_iff in H as [Ha Hb]. eauto.
+  - intros (a & b & -> & Ha & Hb). now rewrite Ha, Hb.
+Qed.
+
+Lemma dd_all_digits x : dd x -> all_digits x.
+Proof. intros (a & b & -> & Ha & Hb). split; [discriminate|]. repeat constructor; assumption. Qed.
+
+(* ---------------------------------------------------------------- memory strings *)
+Lemma scan_unit_iff r k : scan_unit r = Some k <-> unit_exp r k.
+Proof.
+  split.
+  - unfold scan_unit. intros H.
+    repeat match type of H with
+           | (if str_eqb ?a ?b then _ else _) = _ =>
+               let E := fresh "E" in destruct (str_eqb a b) eqn:E;
+               [apply str_eqb_eq in E; subst; inversion H; subst; constructor|]
+           end.
+    discriminate.
+  - intros H; destruct H; reflexivity.
+Qed.
+
+Lemma unit_head u k : unit_exp u k ->
+  exists c u', u = c :: u' /\ is_digit c = false /\ Ascii.eqb c "."%char = false.
+Proof. intros H; destruct H; eexists _, _; (split; [reflexivity|split; reflexivity]). Qed.
+
+Lemma dot_not_digit : is_digit "."%char = false. Proof. reflexivity. Qed.
+Lemma colon_not_digit : is_digit ":"%char = false. Proof. reflexivity. Qed.
+
+Lemma mem_bytes_denotes m q : mem_bytes m = Some q -> mem_denotes m q.
+Proof.
+  unfold mem_bytes, parse_memory. destruct (span is_digit (upper m)) as [d1 r1] eqn:E1.
+  apply span_spec in E1 as (Hx & Hd1 & _).
+  destruct d1 as [|c0 d1']; [discriminate|]. set (d1 := c0 :: d1') in *.
+  assert (A1 : all_digits d1) by (split; [discriminate|assumption]).
+  destruct r1 as [|c r2]; [discriminate|].
+  destruct (Ascii.eqb c "."%char) eqn:Ec.
+  - apply Ascii.eqb_eq in Ec; subst c.
+    destruct (span is_digit r2) as [d2 r3] eqn:E2. apply span_spec in E2 as (Hr2 & Hd2 & _).
+    destruct d2 as [|c1 d2']; [discriminate|]. set (d2 := c1 :: d2') in *.
+    destruct (scan_unit r3) as [k|] eqn:Eu; cbn; [|discriminate]. intros H; inversion H; subst q.
+    apply scan_unit_iff in Eu. exists d1, d2, r3, k.
+    split; [exact Eu|split; [exact A1|split; [|reflexivity]]].
+    right. split; [split; [discriminate|assumption]|]. now rewrite Hx, Hr2.
+  - destruct (scan_unit (c :: r2)) as [k|] eqn:Eu; cbn; [|discriminate]. intros H; inversion H; subst q.
+    apply scan_unit_iff in Eu. exists d1, [], (c :: r2), k.
+    split; [exact Eu|split; [exact A1|split; [|reflexivity]]]. left. split; [reflexivity|exact Hx].
+Qed.
+
+Lemma denotes_mem_bytes m q : mem_denotes m q -> mem_bytes m = Some q.
+Proof.
+  intros (d1 & d2 & u & k & Hu & [Hn1 Hd1] & Hm & ->). unfold mem_bytes, parse_memory.
+  pose proof (proj2 (scan_unit_iff u k) Hu) as Es.
+  destruct (unit_head u k Hu) as (c & u' & -> & Hc & Hdot).
+  assert (Hstop : c :: u' = [] \/ exists c0 b', c :: u' = c0 :: b' /\ is_digit c0 = false)
+    by (right; eexists _, _; split; [reflexivity|exact Hc]).
+  destruct Hm as [[-> Hm]|[[Hn2 Hd2] Hm]]; rewrite Hm.
+  - rewrite (span_app _ _ _ Hd1 Hstop).
+    destruct d1 as [|c0 d1']; [contradiction|]. rewrite Hdot, Es. reflexivity.
+  - assert (Hstop2 : "."%char :: d2 ++ c :: u' = [] \/
+                     exists c0 b', "."%char :: d2 ++ c :: u' = c0 :: b' /\ is_digit c0 = false)
+      by (right; eexists _, _; split; [reflexivity|apply dot_not_digit]).
+    rewrite (span_app _ _ _ Hd1 Hstop2).
+    destruct d1 as [|c0 d1']; [contradiction|]. rewrite Ascii.eqb_refl.
+    rewrite (span_app _ _ _ Hd2 Hstop).
+    destruct d2 as [|c1 d2']; [contradiction|]. rewrite Es. reflexivity.
+Qed.
+
+Lemma mem_bytes_iff m q : mem_bytes m = Some q <-> mem_denotes m q.
+Proof. split; [apply mem_bytes_denotes|apply denotes_mem_bytes]. Qed.
+
+(* the suffix-style recogniser of the statement *)
+Lemma prefix_exp_spec c k : prefix_exp c = Some k -> unit_exp [c; "B"%char] k.
+Proof.
+  unfold prefix_exp. intros H.
+  repeat match type of H with
+         | (if Ascii.eqb ?a ?b then _ else _) = _ =>
+             let E := fresh "E" in destruct (Ascii.eqb a b) eqn:E;
+             [apply Ascii.eqb_eq in E; subst; inversion H; subst; constructor|]
+         end.
+  discriminate.
+Qed.
+
+Lemma prefix_exp_digit c : is_digit c = true -> prefix_exp c = None.
+Proof.
+  intros H. unfold prefix_exp.
+  repeat match goal with
+         | |- (if Ascii.eqb ?a ?b then _ else _) = _ =>
+             let E := fresh "E" in destruct (Ascii.eqb a b) eqn:E;
+             [apply Ascii.eqb_eq in E; subst; discriminate H|]
+         end.
+  reflexivity.
+Qed.
+
+Lemma split_first_spec c x a b : split_first c x = Some (a, b) -> x = a ++ c :: b.
+Proof.
+  revert a b; induction x as [|d x IH]; intros a b H; cbn in H; [discriminate|].
+  destruct (Ascii.eqb c d) eqn:E.
+  - apply Ascii.eqb_eq in E; subst. inversion H; subst. reflexivity.
+  - destruct (split_first c x) as [[a' b']|]; [|discriminate]. inversion H; subst.
+    cbn. f_equal. now apply IH.
+Qed.
+
+Lemma split_first_app c a b : ~ In c a -> split_first c (a ++ c :: b) = Some (a, b).
+Proof.
+  induction a as [|d a IH]; intros H; cbn.
+  - now rewrite Ascii.eqb_refl.
+  - destruct (Ascii.eqb c d) eqn:E.
+    + apply Ascii.eqb_eq in E; subst. exfalso; apply H; left; reflexivity.
+    + rewrite IH; [reflexivity|]. intros Hi; apply H; right; exact Hi.
+Qed.
+
+Lemma split_first_none c a : ~ In c a -> split_first c a = None.
+Proof.
+  induction a as [|d a IH]; intros H; cbn; [reflexivity|].
+  destruct (Ascii.eqb c d) eqn:E.
+  - apply Ascii.eqb_eq in E; subst. exfalso; apply H; left; reflexivity.
+  - rewrite IH; [reflexivity|]. intros Hi; apply H; right; exact Hi.
+Qed.
+
+Lemma split_first_none_inv c a : split_first c a = None -> ~ In c a.
+Proof.
+  induction a as [|d a IH]; cbn; intros H; [tauto|].
+  destruct (Ascii.eqb c d) eqn:E; [discriminate|].
+  destruct (split_first c a) as [[? ?]|]; [discriminate|].
+  intros [->|Hi]; [now rewrite Ascii.eqb_refl in E|now apply IH].
+Qed.
+
+Lemma digits_no c a : is_digit c = false -> Forall (fun x => is_digit x = true) a -> ~ In c a.
+Proof. intros Hc Ha Hi. rewrite Forall_forall in Ha. apply Ha in Hi. congruence. Qed.
+
+Lemma sp_split_unit_spec x num k : sp_split_unit x = Some (num, k) -> exists u, unit_exp u k /\ x = num ++ u.
+Proof.
+  unfold sp_split_unit. destruct (rev x) as [|b rest] eqn:E; [discriminate|].
+  assert (Hx : x = rev rest ++ [b]) by (rewrite <- (rev_involutive x), E; reflexivity).
+  destruct (Ascii.eqb b "B"%char) eqn:Eb; [|discriminate]. apply Ascii.eqb_eq in Eb; subst b.
+  destruct rest as [|c r].
+  - intros H; inversion H; subst. exists (s "B"). split; [constructor|reflexivity].
+  - destruct (prefix_exp c) as [k'|] eqn:Ep; intros H; inversion H; subst.
+    + exists [c; "B"%char]. split; [now apply prefix_exp_spec|]. cbn. now rewrite <- app_assoc.
+    + exists (s "B"). split; [constructor|reflexivity].
+Qed.
+
+Lemma sp_split_unit_app y u k c y' : unit_exp u k -> y = y' ++ [c] -> is_digit c = true ->
+  sp_split_unit (y ++ u) = Some (y, k).
+Proof.
+  intros Hu -> Hc. unfold sp_split_unit. rewrite rev_app_distr.
+  destruct Hu; cbn [s list_ascii_of_string rev app]; rewrite rev_app_distr; cbn [rev app];
+    cbn [Ascii.eqb Bool.eqb]; try rewrite (prefix_exp_digit c Hc); cbn;
+    rewrite ?rev_involutive; try reflexivity.
+  all: change (rev y' ++ [c]) with (rev y' ++ rev [c]); rewrite <- rev_app_distr; cbn; rewrite ?rev_involutive; reflexivity.
+Qed.
+
+Lemma all_digits_snoc d : all_digits d -> exists y' c, d = y' ++ [c] /\ is_digit c = true.
+Proof.
+  intros [Hn Hd]. destruct (exists_last Hn) as (y' & c & ->). exists y', c. split; [reflexivity|].
+  apply Forall_app in Hd as [_ Hc]. now inversion Hc.
+Qed.
+
+Lemma sp_mem_size_denotes m q : sp_mem_size m = Some q -> mem_denotes m q.
+Proof.
+  unfold sp_mem_size. destruct (sp_split_unit (upper m)) as [[num k]|] eqn:E; [|discriminate].
+  apply sp_split_unit_spec in E as (u & Hu & Hx).
+  unfold sp_number. destruct (split_first "."%char num) as [[a b]|] eqn:Es.
+  - apply split_first_spec in Es.
+    destruct (digits_b a) eqn:Ha; [|discriminate]. destruct (digits_b b) eqn:Hb; [|discriminate].
+    cbn. intros H; inversion H; subst q. apply digits_b_iff in Ha, Hb.
+    exists a, b, u, k. split; [exact Hu|split; [exact Ha|split; [|reflexivity]]].
+    right. split; [exact Hb|]. rewrite Hx, Es, <- app_assoc. reflexivity.
+  - destruct (digits_b num) eqn:Hn; [|discriminate]. intros H; inversion H; subst q.
+    apply digits_b_iff in Hn.
+    exists num, [], u, k. split; [exact Hu|split; [exact Hn|split; [|reflexivity]]].
+    left. split; [reflexivity|exact Hx].
+Qed.
+
+Lemma denotes_sp_mem_size m q : mem_denotes m q -> sp_mem_size m = Some q.
+Proof.
+  intros (d1 & d2 & u & k & Hu & A1 & Hm & ->). unfold sp_mem_size.
+  assert (Hdot : ~ In "."%char d1) by (apply digits_no; [apply dot_not_digit|apply A1]).
+  destruct Hm as [[-> Hm]|[A2 Hm]]; rewrite Hm.
+  - destruct (all_digits_snoc d1 A1) as (y' & c & Hy & Hc).
+    rewrite (sp_split_unit_app d1 u k c y' Hu Hy Hc). unfold sp_number.
+    rewrite (split_first_none _ _ Hdot). rewrite (proj2 (digits_b_iff _) A1). reflexivity.
+  - destruct (all_digits_snoc d2 A2) as (y' & c & Hy & Hc).
+    change (d1 ++ "."%char :: d2 ++ u) with (d1 ++ ("."%char :: d2) ++ u). rewrite app_assoc.
+    assert (Hy2 : d1 ++ "."%char :: d2 = (d1 ++ "."%char :: y') ++ [c])
+      by (rewrite Hy, <- app_assoc; reflexivity).
+    rewrite (sp_split_unit_app _ u k c _ Hu Hy2 Hc). unfold sp_number.
+    rewrite (split_first_app _ _ _ Hdot).
+    rewrite (proj2 (digits_b_iff _) A1), (proj2 (digits_b_iff _) A2). reflexivity.
+Qed.
+
+Lemma sp_mem_size_iff m q : sp_mem_size m = Some q <-> mem_denotes m q.
+Proof. split; [apply sp_mem_size_denotes|apply denotes_sp_mem_size]. Qed.
+
+(* the two recognisers are the same function *)
+Lemma sp_mem_size_eq m : sp_mem_size m = mem_bytes m.
+Proof.
+  destruct (mem_bytes m) as [q|] eqn:E.
+  - now apply sp_mem_size_iff, mem_bytes_iff.
+  - destruct (sp_mem_size m) as [q|] eqn:E2; [|reflexivity].
+    apply sp_mem_size_iff, mem_bytes_iff in E2. congruence.
+Qed.
